@@ -15,6 +15,7 @@ func init() {
 			"combinations; muxer.WriteTag writes [type][size 23..0 BE][timestamp 23..0 BE][timestamp 31..24][000000][body][BE32(11+len(body))] in that order for every type byte, every 32-bit timestamp and every " +
 			"body length up to 2^24-1 (both length prefixes derive from len of the very slice written); demuxer.ReadHeader/ReadTagHeader/ReadTag, run on that layout, return exactly the fields' own bits, " +
 			"consume 13 / 11 / size+4 bytes and never index out of range; C09.fullread - the file is read only through all-or-error primitives (io.CopyN). " +
+			"C09.alias - no []byte result aliases storage that outlives the call (receiver fields, package variables, pooled buffers): an item handed out earlier stays what it was. " +
 			"Not decided: equality of body bytes as data (the body is one opaque blob that ABS shows passing through untouched on both sides); sequences of tags follow by induction from the per-tag result.",
 		Assume: []string{"io.Copy from a bytes.Reader writes all bytes or returns an error; io.CopyN(buf, r, n) == nil implies exactly n bytes were appended", "the layout table is my transcription of FLV v10 Annex E"},
 		Run:    runC09,
@@ -42,6 +43,7 @@ func retIndex(names ...string) func(r abs.Result, field string) (abs.Value, bool
 }
 
 func runC09(c *Ctx) {
+	checkOwnsBytes(c, "C09.alias", "flv")
 	R := c.R
 	R.Require("C09.layout", 11)
 	R.Require("C09.fullread", 1)
